@@ -460,12 +460,33 @@ type C11PtrDecoy struct {
 	Y string `value:"lit"`
 }
 
+// tagged embedded fields (the field is anonymous AND carries a recognised tag: it is an injection
+// point / configuration point itself, not a mixin to descend into)
+type C11Svc struct{ X int }
+type C11Settings struct {
+	A string `yaml:"a"`
+}
+type C11Label string
+
+type c11HolderTaggedEmbeds struct {
+	*C11Svc     `wire:""`
+	scen.Iface  `wire:"prov"`
+	C11Settings `prefix:"sect"`
+	C11Label    `mytag:"m1,k=v"`
+}
+type c11HolderTaggedNamed struct {
+	Svc *C11Svc     `wire:""`
+	G   scen.Iface  `wire:"prov"`
+	S   C11Settings `prefix:"sect"`
+	L   C11Label    `mytag:"m1,k=v"`
+}
+
 func c11Static(c *core.Ctx) {
 	type sc struct {
 		Shape string `json:"shape"`
 	}
 	gen := func(yield func(sc) bool) {
-		for _, s := range []string{"unexported-embed", "exported>unexported", "unexported>exported>unexported", "decoys", "diamond", "two-depths"} {
+		for _, s := range []string{"unexported-embed", "exported>unexported", "unexported>exported>unexported", "decoys", "diamond", "two-depths", "tagged-embedded"} {
 			if !yield(sc{s}) {
 				return
 			}
@@ -499,6 +520,44 @@ func c11Static(c *core.Ctx) {
 		want := view(&fin, fprov)
 		if !fo.OK() {
 			c.Report(key, "flat-failed", "the flat reference shape did not start: "+scen.FirstLine(fo.Err)+fo.Panic, s)
+			return
+		}
+		if s.Shape == "tagged-embedded" {
+			start := func(h any) (string, *scen.StartObs) {
+				prov, svc := &c11Prov{"prov"}, &C11Svc{X: 1}
+				rec := &c11Rec{}
+				sc := &c11Scan{}
+				sc.Tag, sc.NodeType = "mytag", "custom"
+				o := scen.Start(scen.StartSpec{Ch: envx.Fixed("", nil), Comps: []any{h, prov, svc, rec, sc},
+					Opts: []app.SettingOption{app.SetConfigLoader(loader.NewRawLoader([]byte("sect:\n  a: x\n")))}})
+				var gotSvc *C11Svc
+				var gotG scen.Iface
+				var gotS C11Settings
+				switch x := h.(type) {
+				case *c11HolderTaggedEmbeds:
+					gotSvc, gotG, gotS = x.C11Svc, x.Iface, x.C11Settings
+				case *c11HolderTaggedNamed:
+					gotSvc, gotG, gotS = x.Svc, x.G, x.S
+				}
+				seen := strings.Join(rec.seen, ";")
+				seen = strings.NewReplacer("C11Label=", "label=", "L=", "label=").Replace(seen)
+				return fmt.Sprintf("svc=%v iface=%v settings=%q custom=[%s]", gotSvc == svc, gotG == scen.Iface(prov), gotS.A, seen), o
+			}
+			want, wo := start(&c11HolderTaggedNamed{})
+			got, o := start(&c11HolderTaggedEmbeds{})
+			switch {
+			case !wo.OK():
+				c.Report(key, "flat-failed", "the holder with named fields did not start: "+scen.FirstLine(wo.Err)+wo.Panic, s)
+			case !o.OK():
+				c.Outcome(s.Shape + "/failed")
+				c.Report(key, "embedding-changes-outcome", fmt.Sprintf("shape %s: start-up failed: %s%s", s.Shape, scen.FirstLine(o.Err), o.Panic), s)
+			case got != want:
+				c.Outcome(s.Shape + "/differs")
+				c.Report(key, "embedding-changes-value", fmt.Sprintf("tagged embedded fields (pointer, interface, struct with prefix tag, named string with a custom tag) end as [%s], the same fields declared with names as [%s]", got, want), s)
+			default:
+				c.Outcome(s.Shape + "/as-named")
+			}
+			c.Sample(map[string]any{"shape": s.Shape, "embedded": got, "named": want})
 			return
 		}
 		if s.Shape == "diamond" || s.Shape == "two-depths" {
